@@ -6,6 +6,7 @@ package forward
 // scripted loopback UDP/TCP servers.
 
 import (
+	"cmp"
 	"context"
 	"encoding/binary"
 	"fmt"
@@ -896,6 +897,10 @@ type vc17SockNode struct {
 	// timeout is the configured exchange timeout of the client.
 	timeout time.Duration
 
+	// stallTimeout is the client's exchange timeout while the server stalls;
+	// zero means vc17StallTimeout.
+	stallTimeout time.Duration
+
 	// deadIdle is the number of idle pooled TCP connections of the client
 	// that the server has closed.
 	deadIdle int
@@ -941,6 +946,10 @@ func (n *vc17SockNode) Exchange(ctx context.Context, req *dns.Msg) (resp *dns.Ms
 
 	start := time.Now()
 	resp, nw, err = n.UpstreamPlain.Exchange(ctx, req)
+	if n.main && vc17IsProbeName(q.Name) {
+		n.env.noteProbeEnd(n.idx)
+	}
+
 	if n.mode != vc17SockStall && time.Since(start) > vc17Timeout/2 {
 		// This server answers or refuses immediately; only an overloaded
 		// machine makes such an exchange slow.
@@ -959,7 +968,7 @@ func (n *vc17SockNode) setMode(m vc17SockMode) (err error) {
 		// server so that a stalling server costs milliseconds, not seconds.
 		n.UpstreamPlain.timeout = n.timeout
 		if m == vc17SockStall {
-			n.UpstreamPlain.timeout = vc17StallTimeout
+			n.UpstreamPlain.timeout = cmp.Or(n.stallTimeout, vc17StallTimeout)
 		}
 	}
 
@@ -1033,12 +1042,42 @@ func TestVerifC17Sockets(t *testing.T) {
 		"query-before-first-health-check", "refresh-reports-all-mains-down")
 	st.Finish(t)
 
+	rapid.Check(t, vc17SocketsProperty(st, false))
+}
+
+// vc17SlowProbeTimeouts are the time-outs T of a silent main in the
+// slow-probe histories; a probe of it takes 2T to fail (the client retries
+// once on a fresh connection).  vc17SlowProbeBackoffs are drawn with them so
+// that the probe's duration is above, about and below the backoff.
+var (
+	vc17SlowProbeTimeouts = []time.Duration{25 * time.Millisecond, 60 * time.Millisecond}
+	vc17SlowProbeBackoffs = []time.Duration{40 * time.Millisecond, 100 * time.Millisecond, 150 * time.Millisecond, 400 * time.Millisecond, 30 * time.Second}
+)
+
+func TestVerifC17SlowProbe(t *testing.T) {
+	st := vstat.New("C17", "forward.slowprobe",
+		"rapid histories over the socket fixture (1-2 mains, 1-2 fallbacks, real UpstreamPlain clients): a main in rotation turns silent (bound, reads, never answers) with time-out T in {25,60} ms, so that its health-check probe takes 2T to fail; backoff in {40,100,150,400 ms, 30 s} (probe duration above and below the backoff); the main comes back; the clock is stepped to backoff minus 1/2 or 3/4 of the probe's duration (inside the window between 'backoff since the probe STARTED' and 'backoff since its failure was ESTABLISHED'), to well before it, or past the backoff; a health-check round and queries follow.  The reference counts the backoff from the moment the failing probe returned (a lower bound of the failure), so it says 'still out of rotation' only when the backoff cannot have elapsed since the failure; non-trivial = a round inside the window, distinct by the whole history",
+		"refresh-in-window-after-slow-probe-failure", "slow-probe-longer-than-backoff", "slow-probe-shorter-than-backoff",
+		"blocked-in-backoff-while-up", "recovered-after-backoff", "health-check-with-udp-silent-main")
+	st.Finish(t)
+
+	rapid.Check(t, vc17SocketsProperty(st, true))
+}
+
+// vc17SocketsProperty is the property of the socket-level histories.  With
+// slowProbe it generates only the slow-failing-probe scenario.
+func vc17SocketsProperty(st *vstat.Stats, slowProbe bool) func(t *rapid.T) {
 	ctx := context.Background()
 
-	rapid.Check(t, func(t *rapid.T) {
+	return func(t *rapid.T) {
 		nMain := rapid.IntRange(1, 2).Draw(t, "mains")
 		nFb := rapid.SampledFrom([]int{0, 1, 1, 2}).Draw(t, "fallbacks")
 		backoff := rapid.SampledFrom([]time.Duration{0, 30 * time.Second, 10 * time.Minute}).Draw(t, "backoff")
+		if slowProbe {
+			nFb = max(nFb, 1)
+			backoff = rapid.SampledFrom(vc17SlowProbeBackoffs).Draw(t, "slowBackoff")
+		}
+
 		seed := rapid.Uint64().Draw(t, "pickSeed")
 
 		// The servers come first; the handler is then built by NewHandler from
@@ -1397,7 +1436,83 @@ func TestVerifC17Sockets(t *testing.T) {
 			return max(0, rapid.SampledFrom([]time.Duration{0, eps, backoff - eps, backoff, backoff + eps, backoff / 2}).Draw(t, "delta"))
 		}
 
+		// slowProbeScenario: a main in rotation turns silent, its probe takes
+		// 2T to fail, it comes back, and a round runs around the end of the
+		// backoff.  Every step is an ordinary checked operation.
+		slowProbeScenario := func() bool {
+			n := nodes[rapid.IntRange(0, nMain-1).Draw(t, "slowOf")]
+			if n.nw == NetworkTCP {
+				// A TCP client of a stalling server fails just as slowly.
+				e.class("slow-probe-over-tcp")
+			}
+
+			if !setMode(n, vc17SockUp) {
+				return false
+			}
+
+			e.advance(backoff + time.Second)
+			if !refresh() {
+				return false
+			}
+
+			doQuery()
+			n.stallTimeout = rapid.SampledFrom(vc17SlowProbeTimeouts).Draw(t, "slowTimeout")
+			defer func() { n.stallTimeout = 0 }()
+			probeTakes := 2 * n.stallTimeout
+			if probeTakes >= backoff {
+				e.class("slow-probe-longer-than-backoff")
+			} else {
+				e.class("slow-probe-shorter-than-backoff")
+			}
+
+			if !setMode(n, vc17SockStall) || !refresh() {
+				return false
+			}
+
+			if vc17SlowCode.Load() {
+				return true
+			}
+
+			if !setMode(n, vc17SockUp) {
+				return false
+			}
+
+			switch rapid.IntRange(0, 5).Draw(t, "slowWhen") {
+			case 0:
+				// Well before the end of the backoff, whatever it is counted
+				// from.
+				e.advance(max(0, backoff-3*probeTakes))
+			case 1:
+				e.advance(backoff + time.Second)
+			default:
+				// Inside the window: the backoff has elapsed since the probe
+				// STARTED but not since its failure was established.
+				frac := rapid.SampledFrom([]time.Duration{2, 4}).Draw(t, "slowFrac")
+				e.advance(max(0, backoff-probeTakes*(frac-1)/frac))
+				e.class("refresh-in-window-after-slow-probe-failure")
+				e.nontrivial = true
+			}
+
+			if !refresh() {
+				return false
+			}
+
+			doQuery()
+			doQuery()
+
+			return true
+		}
+
 		nOps := rapid.IntRange(3, 14).Draw(t, "nOps")
+		if slowProbe {
+			nOps = 0
+			for range rapid.IntRange(1, 2).Draw(t, "scenarios") {
+				if caseCut || !slowProbeScenario() {
+					break
+				}
+			}
+		}
+
 	ops:
 		for range nOps {
 			if caseCut {
@@ -1536,5 +1651,5 @@ func TestVerifC17Sockets(t *testing.T) {
 		if e.nontrivial && st.WantSample() {
 			st.Sample(e.hist.String())
 		}
-	})
+	}
 }
